@@ -30,6 +30,8 @@ def sec15():
             rr = "%s at %s" % (r.get("result", ""), r.get("repo_head", ""))
             if r.get("result") == "PATCH-NO-LONGER-APPLIES":
                 rr = "patch no longer applies at %s (the patched lines were changed by a later `fix:` commit); the original run stands" % r.get("repo_head", "")
+            elif r.get("result") == "NO LONGER A VIOLATION":
+                rr = "no longer a violation at %s: %s" % (r.get("repo_head", ""), r.get("first", ""))
             elif r.get("first"):
                 rr += ": `%s`" % r["first"].strip().replace("first failing input: ", "").replace("|", "\\|")[:110]
         out.append("| `%s` | %s | %s | %s | %s |" % (os.path.basename(os.path.dirname(d)), m["breaks_property"], m["needs_to_manifest"].replace("|", "\\|"), m["result"].replace("|", "\\|"), rr))
